@@ -455,6 +455,7 @@ func runC15(cfg Config) {
 	}
 	c15CLI(cfg, rep, rng)
 	storeOptsServers(cfg, rep, m, rng)
+	storeOptsIndexLocations(cfg, rep, m, rng) // which place a server's --store names (storeopts_more.go)
 	rep.Write(cfg.Out)
 }
 
